@@ -1747,7 +1747,7 @@ Section FunctionSim.
 
   Lemma fun_nsp : exists g fn, generate_nsp false fun_symtab = inl g /\ n_kind g = NGlobal /\
     find_inner g "f" 1 = Some fn /\ n_kind fn = NFunction /\ n_id fn = 1 /\ transparent fn /\
-    n_zero_super fn = false /\ n_inner_nonlocal fn = [] /\ n_is_method fn = false.
+    n_zero_super fn = false /\ n_inner_nonlocal fn = [] /\ n_is_method fn = false /\ set_params fn [] = fn.
   Proof.
     eexists _, _. split; [reflexivity|]. split; [reflexivity|]. split; [reflexivity|].
     split; [reflexivity|]. split; [reflexivity|]. split; [|repeat split; reflexivity].
@@ -1782,7 +1782,7 @@ Section FunctionSim.
     exists f v σ', run orc f (MExpr e) (mkSt [] [] 0) = Some (v, σ') /\ s_tr σ' = x_tr sx /\ s_pos σ' = x_pos sx.
   Proof.
     intros fuel b sx e Hwf Hex HL.
-    unfold lower_module in HL. destruct fun_nsp as [g [fn [Hg [Hk [Hfind [Hfk [Hfid [Hft [Hzs [Hin Him]]]]]]]]]].
+    unfold lower_module in HL. destruct fun_nsp as [g [fn [Hg [Hk [Hfind [Hfk [Hfid [Hft [Hzs [Hin [Him Hsp]]]]]]]]]]].
     cbn [cfg0 cfg_host_lt_312] in HL. rewrite Hg in HL. cbn [rbind] in HL. fold cfg0 in HL.
     change (fun c0 p0 s0 => lower_stmt cfg0 c0 p0 s0) with L in HL.
     set (c0 := mkCtx g [] false) in *.
@@ -1798,6 +1798,7 @@ Section FunctionSim.
     unfold get_load_name in H2. rewrite Hk in H2. cbn [rbind ret] in H2. injection H2 as <-.
     (* the def statement *)
     unfold L in H1. cbn [lower_stmt c_nsp c0] in H1. rewrite Hfind, Hfk in H1. cbn [a_defaults a_kw_defaults no_args rmap rbind ret] in H1.
+    cbn [a_posonly a_args no_args app] in H1. rewrite Hsp in H1.
     fold L in H1.
     set (ru := uses_flag has_ret (map embed b)) in *.
     set (cf := mkCtx fn [] ru) in *.
